@@ -13,6 +13,22 @@ pub enum Form {
     AsyncFn,
     ManualFuture,
     GuardAsync,
+    /// `#[emit::span(rt, ok_lvl: .., ..)] fn -> Result`: the expansion that completes through
+    /// `complete_with(macro's Ok / Err completion)`. Exit by node id: `% 3 == 0` Ok, `1` explicit `return Err`, `2` early `?`
+    ResultOkLvlSync,
+    /// `#[emit::span(rt, err_lvl: .., ..)] fn -> Result`
+    ResultErrLvlSync,
+    /// `#[emit::span(rt, err: mapper, ..)] fn -> Result`
+    ResultErrSync,
+    ResultOkLvlAsync,
+    ResultErrLvlAsync,
+    ResultErrAsync,
+    /// `guard:` fn completing by hand with `span.complete_with(emit::span::completion::default(emitter, ctxt))`
+    GuardCompleteWithSync,
+    /// `guard:` async fn completing with `span.complete_with(completion::from_fn(|span| emit!(rt, evt: span)))`
+    GuardCompleteWithAsync,
+    /// `new_span!` + `frame.call`, completing with `guard.complete_with(completion::default(..))`
+    ManualCompleteWith,
     /// the span's OWN frame (from `new_span!`) is moved to a fresh thread and entered there with
     /// `frame.call(..)`; the guard is started and completed there
     HandoffCall,
@@ -28,7 +44,21 @@ pub enum Form {
 
 impl Form {
     pub fn is_async(self) -> bool {
-        matches!(self, Form::AsyncFn | Form::ManualFuture | Form::GuardAsync | Form::HandoffFuture)
+        matches!(
+            self,
+            Form::AsyncFn | Form::ManualFuture | Form::GuardAsync | Form::HandoffFuture | Form::ResultOkLvlAsync | Form::ResultErrLvlAsync | Form::ResultErrAsync | Form::GuardCompleteWithAsync
+        )
+    }
+    /// Result-returning attribute forms (complete through `complete_with` of the macros' own Ok / Err completions)
+    pub fn is_result(self) -> bool {
+        matches!(
+            self,
+            Form::ResultOkLvlSync | Form::ResultErrLvlSync | Form::ResultErrSync | Form::ResultOkLvlAsync | Form::ResultErrLvlAsync | Form::ResultErrAsync
+        )
+    }
+    /// completed by hand with `complete_with(custom completion)`
+    pub fn is_complete_with(self) -> bool {
+        matches!(self, Form::GuardCompleteWithSync | Form::GuardCompleteWithAsync | Form::ManualCompleteWith)
     }
     pub fn is_sync_handoff(self) -> bool {
         matches!(self, Form::HandoffCall | Form::HandoffInFn | Form::HandoffEnterBack)
